@@ -29,3 +29,12 @@ func VH_C13_LengthRoundTrip() {
 	}
 }
 
+
+// VH_C04_LengthHelpers: arbitrary bytes into the length-octet helpers.
+func VH_C04_LengthHelpers() {
+	n := zzverif.Param("n")
+	b := zzverif.Bytes(n)
+	GetLengthFromASN(b)
+	GetNumberBytesInLengthHeader(b)
+	zzverif.Reach("returned")
+}
